@@ -121,3 +121,17 @@ Theorem C04_structure_left_half_rows_of_full_model_are_the_half_model_rows :
     = rsum (6 * S ne) (fun q => assembled ne kh a r (q / 6) (q mod 6) * uh q).
 Proof. exact full_left_rows_are_half_rows. Qed.
 Print Assumptions C04_structure_left_half_rows_of_full_model_are_the_half_model_rows.
+
+(* inertial loads on the modelled half: the half model carries half of the fuel INCLUDING the reserve in half the tank volume *)
+Theorem C04_fuel_loads_of_the_half_model_are_the_left_half_of_the_full_model :
+  forall nodes ne g lf fm res (vols : nat -> R) j c,
+    (j < ne)%nat -> rsum ne vols <> 0 -> rsum (2 * ne) vols = 2 * rsum ne vols ->
+    fuel_weight_loads nodes (2 * ne) false g lf fm res vols j c = fuel_weight_loads nodes ne true g lf fm res vols j c.
+Proof. exact fuel_loads_half_is_left_half_of_full. Qed.
+Print Assumptions C04_fuel_loads_of_the_half_model_are_the_left_half_of_the_full_model.
+
+Theorem C04_structural_weight_loads_of_the_half_model_are_the_left_half_of_the_full_model :
+  forall nodes ne nf g lf (em : nat -> R) j c, (j < ne)%nat -> (ne <= nf)%nat ->
+    struct_weight_loads nodes nf g lf em j c = struct_weight_loads nodes ne g lf em j c.
+Proof. exact struct_weight_loads_half_is_left_half_of_full. Qed.
+Print Assumptions C04_structural_weight_loads_of_the_half_model_are_the_left_half_of_the_full_model.
